@@ -84,6 +84,13 @@ def run(res, tier, seed, shard, nshards):
                         prior = ["send_close", "server-close-answered", "rejected-empty-frame", "rejected-ping-frame"][ti % 4]
                         if close_to or ti % 3 == 0:
                             close_timing_case(res, W, sock_to, close_to, peer, prior=prior)
+        ii = 0
+        for when in ("waiting", "waiting-after-data", "writing"):
+            for sock_to in (None, 1):
+                for close_to in (0.5, 3, None):
+                    ii += 1
+                    if ii % nshards == shard:
+                        close_interrupted_case(res, W, when, sock_to, close_to)
         # the transport fails in the middle of the client's own close frame (a few bytes accepted, then a timeout / reset / I/O
         # error): whatever is called next, close() does not start a second close frame, and it releases the transport
         wi = 0
@@ -550,6 +557,66 @@ def close_timing_case(res, W, sock_to, close_to, peer, prior="none"):
             if got != "WebSocketConnectionClosedException":
                 res.violation("after-close", f"{name}() after close() (before it: {prior}; peer {peer}): {got}, expected WebSocketConnectionClosedException", case,
                               step_call=name, got=got, prior=prior)
+
+
+def close_interrupted_case(res, W, when, sock_to, close_to):
+    """close() is interrupted by something that is not an Exception (Ctrl-C, a green-thread Timeout) while it writes its close frame or
+    waits for the server's: whether the interruption is passed on or swallowed, the transport is released and the connection is closed
+    for good - no later call writes behind the close frame."""
+    so, conn = net.pair()
+    H.HandshakePeer(conn)
+    w = W.WebSocket()
+    so.settimeout(sock_to)
+    w.sock_opt.timeout = sock_to
+    w.connect("ws://sim.test/", socket=so)
+    before = len(conn.sent)
+    if when == "waiting":
+        conn.deliver_segments([(net.ERROR, H.InjectedInterrupt())])
+    elif when == "waiting-after-data":
+        conn.deliver(R.encode(R.TEXT, b"still talking"))
+        conn.deliver_segments([(net.ERROR, H.InjectedInterrupt())])
+    else:
+        conn.send_error = H.InjectedInterrupt()
+    raised = None
+    try:
+        w.close(timeout=close_to)
+    except H.InjectedInterrupt as e:
+        raised = e
+    case = {"gen": "close-interrupted", "interrupted_while": when, "socket_timeout": sock_to, "close_timeout": close_to, "interrupt_passed_on": raised is not None}
+    res.case(("close-interrupted", when, sock_to, close_to), nontrivial=True)
+    res.count("close_interrupted_cases")
+    if raised is not None and when != "writing":
+        res.count("close_interrupt_passed_on")
+    if raised is None and not conn.client_closed:
+        res.violation("transport-not-released", f"close() interrupted while {when} (interrupt swallowed): transport still open afterwards", case,
+                      step_call="close", via="close", prior="interrupted")
+        return
+    n_sent = len(conn.sent)
+    for name, fn in (("send", lambda: w.send("x")), ("recv", w.recv), ("ping", w.ping)):
+        try:
+            fn()
+            got = "returned"
+        except BaseException as e:  # noqa
+            if isinstance(e, (KeyboardInterrupt, sched.SimAbort)) and not isinstance(e, H.InjectedInterrupt):
+                raise
+            got = type(e).__name__
+        if got != "WebSocketConnectionClosedException" or len(conn.sent) != n_sent:
+            res.violation("after-close", f"{name}() after an interrupted close() ({when}): {got}; {len(conn.sent) - n_sent} bytes written behind the close", case,
+                          step_call=name, got=got, prior="interrupted")
+            return
+    if raised is not None:
+        # passed on to the application: it closes again (the documented way out), which must release the transport
+        try:
+            w.close(timeout=0)
+        except Exception:  # noqa
+            pass
+        if not conn.client_closed:
+            res.violation("transport-not-released", f"close() interrupted while {when} (interrupt passed on), then close() again: transport still open", case,
+                          step_call="close", via="close", prior="interrupted")
+            return
+    frames, _ = R.decode_all(bytes(conn.sent[before:]))
+    if sum(1 for f in frames if f.opcode == R.CLOSE) > 1:
+        res.violation("close-frames", f"interrupted close() ({when}): {sum(1 for f in frames if f.opcode == R.CLOSE)} close frames written", case, step_call="close")
 
 
 def two_objects_case(res, W, rng, peer2, sock_to1, close_to, reader_api):
